@@ -329,7 +329,7 @@ pub fn allocation_product(thorough: bool) -> Scenario {
         Amt::One => 1,
         Amt::Half => bal / 2,
         Amt::Bal => bal,
-        Amt::BalPlusOne => bal + 1,
+        Amt::BalPlusOne => bal.saturating_add(1),
       };
       let output = match o {
         OutSel::Zero => 0,
@@ -358,7 +358,10 @@ pub fn allocation_product(thorough: bool) -> Scenario {
     txs.push(txkit::tx(vec![txkit::txin(src, Witness::new())], outs));
   }
   let decided = txs.len() as u64;
-  chain.push(txs);
+  // the cases are independent: keep every block within what a node can serve (about 1.5 MB here)
+  for chunk in txs.chunks(10_000) {
+    chain.push(chunk.to_vec());
+  }
   chain.push(vec![]);
   Scenario {
     blocks: chain.blocks,
@@ -566,6 +569,12 @@ pub fn run_scenario_events(s: &Scenario, cfg: &IndexCfg, audit_from: usize, tag:
       }
     }
     e.blocks += 1;
+    // ord ends an update quietly when the node cannot serve a block; that is an environment limit, not a verdict
+    let indexed = index.block_count().unwrap_or(0);
+    if indexed != world.height() + 1 {
+      e.fail("MACHINERY", "machinery/index-behind-chain", format!("after update() the index holds {indexed} blocks, the node {}: the node could not serve a block of scenario {tag}", world.height() + 1));
+      break;
+    }
     match util::catch(|| audit(&index, &runes, &sats, &mut e, &mut feats)) {
       Ok(Some(hash)) => e.states.push(hash),
       Ok(None) => {}
